@@ -359,6 +359,23 @@ where
     }
 }
 
+// Verification hooks: read-only views of the collector state (never used by the crate itself).
+#[cfg(gc_arena_verif)]
+impl<R> Arena<R>
+where
+    R: for<'a> Rootable<'a>,
+{
+    /// Snapshot of the collector state.
+    pub fn verif_snapshot(&self) -> crate::verif::Snapshot {
+        self.context.verif_snapshot()
+    }
+
+    /// Take (and clear) the log of driver-loop micro-steps.
+    pub fn verif_take_log(&self) -> alloc::vec::Vec<u8> {
+        self.context.verif_take_log()
+    }
+}
+
 pub struct MarkedArena<'a, R: for<'b> Rootable<'b>>(&'a mut Arena<R>);
 
 impl<'a, R> MarkedArena<'a, R>
